@@ -300,47 +300,57 @@ def r_provenance(ctx):
                 ok = False
             if ok:
                 res.ok()
-    # AnyVecRaw::new: destructor of the same T, stride size_of::<T>, count honoured
+    # AnyVecRaw::new: the destructor installed in `drop_fn` (a closure or a function item, directly or through a helper) is the element-wise
+    # destructor of the same T: one drop_in_place::<T> per iteration, advancing by one T, `len` iterations, on every path; it is absent only when
+    # T has no drop glue
     newp = "any_vec_raw::AnyVecRaw::new"
-    clos = [f for f in fx.fn_list if f["path"].startswith((ctx.P(newp) or newp) + "::{closure")]
-    res.inst(sample={"destructor_closure": [c["path"] for c in clos]}, func=newp)
-    if len(clos) != 1:
-        res.coverage_lost(newp, "erased destructor closure not found")
+    T = ctx.tparam(newp)
+    destr = set()
+    for tt, I in ctx.arms(newp) or []:
+        tr = ret_tree(I) or {}
+        res.inst(sample={"constructor": newp, "type_id": str(tr.get(("type_id",))), "drop_fn": str(tr.get(("drop_fn",)))[:120]}, func=newp)
+        ok = True
+        if tr.get(("type_id",)) != ("TYPEID", T) or tr.get(("len",)) != Poly():
+            res.fail(newp, "fields", "AnyVecRaw::new records type id %s / len %s" % (tr.get(("type_id",)), tr.get(("len",))), span=ctx.span_of(newp))
+            ok = False
+        dv = tr.get(("drop_fn",))
+        payload, none_facts = None, None
+        if isinstance(dv, tuple) and dv[:1] == ("optj",):
+            payload = dv[3]
+            side = I.optj.get((dv[1], dv[2]))
+            none_facts = side[1] if side else frozenset()
+        elif isinstance(dv, tuple) and dv[:1] == ("some",):
+            payload, none_facts = dv[1], None
+        fnp = None
+        if isinstance(payload, tuple) and payload and payload[0] in ("closure", "fnitem"):
+            fnp = payload[1]
+            if payload[0] == "fnitem" and tuple(payload[2][:1]) != (T,):
+                res.fail(newp, "destructor-type", "the installed destructor is instantiated for %s, expected %s" % (payload[2], T), span=ctx.span_of(newp))
+                ok = False
+        if fnp is None or ctx.fn(fnp) is None:
+            res.fail(newp, "destructor", "no element destructor is installed in drop_fn (got %s): elements are never destroyed" % (dv,), span=ctx.span_of(newp))
+            ok = False
+        else:
+            destr.add(fnp)
+        if none_facts is not None and not any(f[0] in ("isfalse", "true") and isinstance(f[1], tuple) and "needs_drop" in repr(f[1]) for f in none_facts):
+            res.fail(newp, "destructor-guard", "drop_fn is None on a path not decided by needs_drop::<%s>()" % T, span=ctx.span_of(newp))
+            ok = False
+        if ok:
+            res.ok()
+    res.inst(sample={"destructor": sorted(destr)}, func=newp)
+    if len(destr) != 1:
+        res.coverage_lost(newp, "erased destructor (closure or function stored in drop_fn) not found")
     else:
-        cp = clos[0]["path"]
+        cp = sorted(destr)[0]
+        cf = ctx.fn(cp)
+        Tc = ctx.tparam(cp) if cf.get("kind") != "Closure" else T
         for tt, I in ctx.arms(cp) or []:
+            res.inst(sample={"destructor": cp, "element_type": Tc}, func=cp)
             ds = I.all_effects(("DESTROY",))
-            pa = [e for e in I.all_effects(("PTRADD",))]
-            rn = I.all_effects(("RANGE_NEXT",))
-            ok = True
-            if len(ds) != 1 or ds[0]["ety"] != ctx.tparam(newp) or as_poly(ds[0]["n"]) != Poly.const(1):
-                res.fail(cp, "destroy", "erased destructor must drop exactly one T per iteration", span=ctx.span_of(cp))
-                ok = False
-            if len(pa) != 1 or as_poly(pa[0]["n"]) != Poly.atom(("SIZEOF", ctx.tparam(newp))):
-                res.fail(cp, "stride", "erased destructor advances by %s, expected size_of::<T>()" % (pa[0]["n"] if pa else None), span=ctx.span_of(cp))
-                ok = False
-            if len(rn) != 1 or not _in_cycle(I, ds[0].gid if ds else rn[0].gid):
-                res.fail(cp, "loop", "erased destructor does not loop over its count", span=ctx.span_of(cp))
-                ok = False
-            else:
-                # range end is the `len` parameter
-                rg = None
-                for st in I.in_state.values():
-                    for v in st.env.values():
-                        if isinstance(v, tuple) and v and v[0] == "range":
-                            rg = v
-                if rg is None or rg[1] != Poly() or rg[2] != Poly.atom(("param", 3)):
-                    res.fail(cp, "count", "erased destructor iterates over %s, expected 0..len" % (rg,), span=ctx.span_of(cp))
-                    ok = False
-            if ok:
-                res.ok()
-        # the closure is installed iff needs_drop::<T>()
-        for tt, I in ctx.arms(newp) or []:
-            tr = ret_tree(I) or {}
-            res.inst(sample={"constructor": newp, "type_id": str(tr.get(("type_id",)))}, func=newp)
-            if tr.get(("type_id",)) != ("TYPEID", ctx.tparam(newp)) or tr.get(("len",)) != Poly():
-                res.fail(newp, "fields", "AnyVecRaw::new records type id %s / len %s" % (tr.get(("type_id",)), tr.get(("len",))), span=ctx.span_of(newp))
-            else:
+            if len(ds) != 1 or ds[0]["ety"] != Tc or as_poly(ds[0]["n"]) != Poly.const(1):
+                res.fail(cp, "destroy", "erased destructor must drop exactly one %s per iteration" % Tc, span=ctx.span_of(cp))
+                continue
+            if _elementwise_loop(ctx, res, cp, I, ds[0], Tc, Poly.atom(("param", cf.get("arg_count", 2))), "erased destructor"):
                 res.ok()
     # (3) copies: clone_empty_in carries type id / destructor over, storage from the requested builder with the source's layout
     p = "any_vec_raw::AnyVecRaw::clone_empty_in"
@@ -413,9 +423,10 @@ def r_provenance(ctx):
         if cps:
             res.fail(p, "bitwise", "clone_fn copies elements bitwise (%s) on some path: T::clone is skipped" % cps[0]["prim"], span=span_of_effect(cps[0]))
             ok = False
-        if len(I.all_effects(("RETURN",))) != 1:
-            res.fail(p, "early-return", "clone_fn has an early return that bypasses the clone loop", span=ctx.span_of(p))
-            ok = False
+        # the clone loop is on every path (for every element type, zero-sized included, Clone::clone has to run `len` times) and is bounded by `len`
+        if ws and _in_cycle(I, ws[0].gid):
+            if not _elementwise_loop(ctx, res, p, I, ws[0], ctx.tparam(p), Poly.atom(("param", 3)), "clone_fn"):
+                ok = False
         if [d for d in normal_drops(I) if ty_str(d["ty"]) == ctx.tparam(p)]:
             res.fail(p, "drop", "clone_fn drops a T in the destination (assignment instead of write)", span=ctx.span_of(p))
             ok = False
@@ -432,6 +443,59 @@ def r_provenance(ctx):
 
 def _in_cycle(I, gid):
     return gid in I.reachable_from(gid)
+
+
+def _elementwise_loop(ctx, res, p, I, body_eff, T, LEN, what):
+    """the effect `body_eff` runs once per element for `len` elements: it sits in a loop that is on every path to the return, the loop is bounded by the
+    `len` argument (a 0..len range or a counter compared with len), and pointers advance by exactly one T per iteration"""
+    ok = True
+    g0 = body_eff.gid
+    if not _in_cycle(I, g0):
+        res.fail(p, "loop", "%s does not loop over its count" % what, span=ctx.span_of(p))
+        return False
+    cyc = {g for g in I.reachable_from(g0) if g0 in I.reachable_from(g)} | {g0}
+    for r in I.all_effects(("RETURN",)):
+        if not every_path_to(I, r.gid, lambda g: g in cyc):
+            res.fail(p, "early-return", "%s has a path to its return that bypasses the element loop" % what, span=span_of_effect(r))
+            ok = False
+            break
+    bounded = False
+    for e in I.all_effects(("RANGE_NEXT",)):
+        rg = e["range"]
+        if e.gid in cyc and isinstance(rg, tuple) and rg[:1] == ("range",) and as_poly(rg[1]) == Poly() and as_poly(rg[2]) == LEN:
+            bounded = True
+    for e in I.all_effects(("SWITCH",)):
+        d = e["discr"]
+        if e.gid not in cyc:
+            continue
+        dd = d[1] if isinstance(d, tuple) and d and d[0] == "not" else d
+        if isinstance(dd, tuple) and dd and dd[0] == "cmp":
+            # a counter against len (i < len), or a count-down from len (remaining != 0 with remaining initialised to len before the loop)
+            if as_poly(dd[2]) == LEN or as_poly(dd[3]) == LEN:
+                bounded = True
+            else:
+                for side in (dd[2], dd[3]):
+                    for a in as_poly(side).atoms():
+                        if isinstance(a, tuple) and a[0] == "phi":
+                            # the loop-carried counter: its value on loop entry
+                            for (pg, kind) in I.g.nodes[a[1]].preds:
+                                if pg not in cyc and (pg, a[1]) in I.edges:
+                                    v0 = I.out_value(pg, a[2]) if hasattr(I, "out_value") else None
+                                    if v0 is not None and as_poly(v0) == LEN:
+                                        bounded = True
+    if not bounded:
+        res.fail(p, "count", "the element loop of %s is not bounded by its `len` argument (expected 0..len)" % what, span=ctx.span_of(p))
+        ok = False
+    for e in I.all_effects(("PTRADD",)):
+        if e.gid not in cyc:
+            continue
+        n = as_poly(e["n"])
+        per_elem = (e["ety"] == T and (n == Poly.const(1) or (len(n.m) == 1 and not n.is_const()))) or \
+                   (e["ety"] in ("u8", "i8") and n == Poly.atom(("SIZEOF", T)))
+        if not per_elem:
+            res.fail(p, "stride", "%s advances a %s pointer by %s, expected one %s (size_of::<%s>() bytes) per iteration" % (what, e["ety"], n, T, T), span=span_of_effect(e))
+            ok = False
+    return ok
 
 
 def _reporters(res, ctx):
@@ -712,16 +776,36 @@ def r_heap(ctx):
                     res.fail(rp, "zst-no-allocator", "the allocator is reached although the element size is 0", span=span_of_effect(acalls[0]))
                 else:
                     res.ok()
-    # the allocator is called from resize only (one owner of the allocation protocol)
+    # the allocator is reached through resize only (one owner of the allocation protocol): a function of the backend that calls the allocator is
+    # either resize itself or a private helper all of whose callers are (so it is expanded into resize's graph and covered by the obligations above)
+    callers = {}
     for f in fx.fn_list:
-        if not (f["path"].startswith("mem::heap") or f["path"].startswith("<mem::heap")) or f["path"].startswith(rp):
+        for b in f["blocks"]:
+            tm = b["term"]
+            if tm["k"] == "call" and "indirect" not in tm["callee"]:
+                callers.setdefault(tm["callee"]["path"], set()).add(f["path"])
+    rp_raw = ctx.fn(rp)["path"] if ctx.fn(rp) else rp
+
+    def only_via_resize(path, seen=()):
+        if path == rp_raw:
+            return True
+        f = fx.fn(path)
+        if f is None or path in seen or f.get("exported") or (f.get("vis") == "pub" and f.get("reachable")):
+            return False
+        cs = callers.get(path, set())
+        return bool(cs) and all(only_via_resize(c, seen + (path,)) for c in cs)
+    for f in fx.fn_list:
+        if not (f["path"].startswith("mem::heap") or f["path"].startswith("<mem::heap")) or f["path"].startswith(rp_raw):
             continue
         for b in f["blocks"]:
             tm = b["term"]
             if tm["k"] == "call" and "indirect" not in tm["callee"] and tm["callee"].get("crate") == "alloc" and tm["callee"]["name"] in ("alloc", "alloc_zeroed", "realloc", "dealloc"):
-                res.inst(sample={"allocator_call_outside_resize": f["path"]}, func=f["path"])
-                res.fail(f["path"], "allocator-call-site", "%s calls the allocator (%s) outside HeapMem::resize: the size/stride guards and layout bookkeeping of resize do not cover it"
-                         % (f["path"], tm["callee"]["name"]), span="%s:%s" % (f["span"]["file"], tm.get("line")))
+                res.inst(sample={"allocator_call_outside_resize": f["path"], "only_reached_through_resize": only_via_resize(f["path"])}, func=f["path"])
+                if only_via_resize(f["path"]):
+                    res.ok()
+                    continue
+                res.fail(f["path"], "allocator-call-site", "%s calls the allocator (%s) and is reachable other than through HeapMem::resize: the size/stride guards and layout "
+                         "bookkeeping of resize do not cover it" % (f["path"], tm["callee"]["name"]), span="%s:%s" % (f["span"]["file"], tm.get("line")))
     # Drop => resize(0)
     dp = None
     for im in fx.impls_of("core::ops::Drop"):
@@ -933,6 +1017,8 @@ def _field_ptr_writers_aligned(ctx, adt, res):
                     continue
                 if isinstance(v, tuple) and v and v[0] in ("phi", "unwrap"):
                     continue      # join of the above (alloc / realloc / dangling)
+                if isinstance(v, tuple) and v and v[0] == "call" and fx.fn(v[1]) is not None:
+                    continue      # result of a helper of this crate beyond the inlining depth: judged by its own pointer producers (pointer-source clause)
                 if v == ("param", 1) or (isinstance(v, tuple) and v[0] in ("param", "alias")):
                     continue      # from_raw_parts: caller-supplied handle (unsafe contract)
                 ok = False
@@ -1179,6 +1265,25 @@ def r_sig(ctx):
                 ok = False
         if ok:
             res.ok()
+    # (2b) constructors of borrowing values: every impl-level lifetime in the output must occur in some input type, otherwise the caller may pick it
+    # freely and the result is not tied to anything it was built from (`fn new(value: &T) -> LazyClone<'a, T>`)
+    for f in fx.fn_list:
+        if f.get("kind") not in ("AssocFn", "Fn") or not ctx.is_public(f) or not f.get("exported") or f.get("unsafe") or fx.fn(f["path"]) is not f:
+            continue      # only functions a user can name (exported through a public path); crate-internal constructors get their lifetime from the public method
+        sig = f["sig"]
+        free = sig.get("output_free_regions", [])
+        if not free or f.get("self_kind") in ("ref", "mut"):
+            continue
+        in_free = set()
+        for r in sig.get("input_regions", []):
+            in_free |= set(r.get("free", []))
+        res.inst(sample={"function": f["path"], "output": sig["output"]["s"], "impl_level_regions": free, "input_regions": sorted(in_free)}, func=f["path"])
+        loose = [r for r in free if r not in in_free and "static" not in r]
+        if loose:
+            res.fail(f["path"], "unconstrained-output-lifetime", "the returned %s carries lifetime %s, which occurs in no argument type: the caller chooses it, so the "
+                     "result does not keep its source borrowed" % (sig["output"]["s"], ",".join(x.split("/")[0] for x in loose)), span=ctx.span_of(f["path"]))
+        else:
+            res.ok()
     # (3) iterators over exclusive handles are not Clone
     for im in fx.impls_of("core::clone::Clone"):
         if im["self_ty"].get("path") == "iter::Iter":
@@ -1397,4 +1502,116 @@ def r_stackcap(ctx):
             res.ok()
         else:
             res.fail(bp, "fits-check", "StackN::build does not establish N x element size <= SIZE before returning", span=ctx.span_of(bp))
+    return res
+
+
+# ------------------------------------------------------------------------------------------------ R-NOLEAK
+
+def storage_owners(ctx):
+    """local ADTs whose destructor releases storage (and, for the vector, its elements): a Drop impl that reaches the allocator, a field of an
+    abstract backend type (`<M as MemBuilder>::Mem`), or a field of such an owner by value"""
+    fx = ctx.fx
+    owners = set()
+    for im in fx.impls_of("core::ops::Drop"):
+        st = im["self_ty"]
+        if st.get("k") != "adt" or st["path"] not in fx.adts:
+            continue
+        for it in im["items"]:
+            for tt, I in ctx.arms(it["path"]) or []:
+                if I.all_effects(("DEALLOC", "REALLOC")):
+                    owners.add(st["path"])
+
+    def owns(t, depth=0):
+        if depth > 6:
+            return False
+        k = t.get("k")
+        if k == "alias" and t.get("path", "").endswith("MemBuilder::Mem"):
+            return True
+        if k == "adt":
+            if t["path"] in owners:
+                return True
+            if t["path"] in ("core::mem::ManuallyDrop", "core::mem::MaybeUninit"):
+                return False
+        if k in ("tuple",):
+            return any(owns(e, depth + 1) for e in t.get("elems", []))
+        if k == "array":
+            return owns(t["to"], depth + 1)
+        return False
+    changed = True
+    while changed:
+        changed = False
+        for path, a in fx.adts.items():
+            if path in owners:
+                continue
+            if any(owns(f["ty"]) for v in a["variants"] for f in v["fields"]):
+                owners.add(path)
+                changed = True
+    return owners, owns
+
+
+def r_noleak(ctx):
+    """drop suppression of storage owners: ManuallyDrop::new / mem::forget applied to a value that owns storage is allowed only where the storage is handed
+    to the caller (the raw-parts decomposition); no owner is stored inside ManuallyDrop / MaybeUninit"""
+    res = RuleResult("R-NOLEAK")
+    fx = ctx.fx
+    owners, owns = storage_owners(ctx)
+    res.inst(sample={"storage_owners": sorted(owners)})
+    if not {"any_vec_raw::AnyVecRaw", "any_vec::AnyVec"} <= owners:
+        res.coverage_lost("<crate>", "the vector types are not recognised as storage owners (found %s)" % sorted(owners))
+    else:
+        res.ok()
+
+    def hands_out_storage(f):
+        """raw-parts decomposition: an item of an impl of mem::MemRawParts, or a function returning a struct that carries a MemRawParts::Handle"""
+        if (f.get("impl_trait") or "").startswith("mem::MemRawParts") or (f.get("trait_item_of") or "").startswith("mem::MemRawParts"):
+            return True
+
+        def mentions_handle(t, depth=0):
+            if depth > 5:
+                return False
+            if t.get("k") == "alias" and t.get("path", "").endswith("MemRawParts::Handle"):
+                return True
+            if t.get("k") == "adt":
+                a = fx.adts.get(t["path"])
+                if a and any(mentions_handle(fl["ty"], depth + 1) for v in a["variants"] for fl in v["fields"]):
+                    return True
+                return any(mentions_handle(x, depth + 1) for x in t.get("args", []) if isinstance(x, dict))
+            if t.get("k") == "tuple":
+                return any(mentions_handle(e, depth + 1) for e in t.get("elems", []))
+            return False
+        return mentions_handle(f.get("sig", {}).get("output", {}))
+    SUPPRESS = {"core::mem::ManuallyDrop::<T>::new": "ManuallyDrop::new", "core::mem::forget": "mem::forget", "core::mem::MaybeUninit::<T>::new": "MaybeUninit::new"}
+    for f in fx.fn_list:
+        if fx.fn(f["path"]) is not f:
+            continue
+        for b in f["blocks"]:
+            tm = b["term"]
+            if tm["k"] != "call" or "indirect" in tm["callee"]:
+                continue
+            c = tm["callee"]
+            how = SUPPRESS.get(c["path"])
+            if not how:
+                continue
+            ga = [a for a in c.get("generic_args", []) if a.get("k") not in ("region", "const")]
+            if not ga or not owns(ga[0]):
+                continue
+            res.inst(sample={"function": f["path"], "suppresses_drop_of": ga[0].get("s"), "through": how}, func=f["path"])
+            if hands_out_storage(f):
+                res.ok()
+            else:
+                res.fail(f["path"], "suppressed-drop:" + (ga[0].get("path") or ga[0].get("s", "?")).split("::")[-1],
+                         "%s of a value of type %s, which owns storage (and elements): if this function unwinds or the value is not unwrapped on some path, the storage "
+                         "is never released; only the raw-parts decomposition may take a vector apart" % (how, ga[0].get("s")),
+                         span="%s:%s" % (f["span"]["file"], tm.get("line")))
+    # type-level: an owner kept inside ManuallyDrop / MaybeUninit never runs its destructor
+    for path, a in sorted(fx.adts.items()):
+        for v in a["variants"]:
+            for fl in v["fields"]:
+                t = fl["ty"]
+                if t.get("k") == "adt" and t["path"] in ("core::mem::ManuallyDrop", "core::mem::MaybeUninit"):
+                    inner = [x for x in t.get("args", []) if isinstance(x, dict) and x.get("k") not in ("region", "const")]
+                    if inner and owns(inner[0]):
+                        res.inst(sample={"type": path, "field": fl["name"], "holds": t.get("s")})
+                        res.fail(path, "field-suppresses-drop:" + fl["name"], "field `%s` keeps a storage owner (%s) inside %s: its destructor never runs"
+                                 % (fl["name"], inner[0].get("s"), t["path"].split("::")[-1]))
     return res
